@@ -27,6 +27,16 @@ def cases(rng, tier):
             den = rng.choice([4, 8, 16])
             fam = rng.choice(["M", "D", "N"])
             st = rng.choice(["o", "r"])
+            if rng.random() < 0.12:
+                # arbitrary float operands incl. dogmatic factors with non-dyadic masses and zero base-rate entries:
+                # the result must at least be a well-formed opinion (no NaN / inf / negative masses)
+                k = rng.choice([2, 2, 3])
+                ns = [rng.choice([2, 3]) for _ in range(k)]
+                sc = []
+                for n in ns:
+                    sc += G.float_opinion_kind(rng, fmt, n)
+                out.append(G.line("prod2" if k == 2 else "prod3", fmt, rng.choice(["D", "N", "M"]) + "." + st, ns, sc))
+                continue
             if rng.random() < 0.65:
                 n0, n1 = rng.choice([2, 3]), rng.choice([2, 3])
                 w0 = G.rand_opinion(rng, n0, den, G.rand_kind(rng))
